@@ -27,6 +27,7 @@ mod json;
 mod props;
 mod refchess;
 mod report;
+mod sched;
 mod srch;
 mod universe;
 
@@ -63,6 +64,11 @@ fn real_main(mut args: Vec<String>) -> i32 {
     bind::install_panic_hook();
     let worker = args.iter().any(|a| a == "--worker");
     args.retain(|a| a != "--worker");
+    let shard: Option<(usize, usize)> = args.iter().find_map(|a| a.strip_prefix("--shard=")).and_then(|v| {
+        let mut it = v.split('/');
+        Some((it.next()?.parse().ok()?, it.next()?.parse().ok()?))
+    });
+    args.retain(|a| !a.starts_with("--shard="));
     match refchess::Keys::load("/repo/zobrist_bytes.bin") {
         Ok(k) => {
             let _ = props::core::KEYS.set(k);
@@ -115,6 +121,14 @@ fn real_main(mut args: Vec<String>) -> i32 {
                 // worker processes report their accumulator on stdout and never print verdict lines
                 let acc = match prop {
                     "C17" => props::c17::run_local(&tier, seed).0,
+                    "C14" => {
+                        let (i, n) = shard.unwrap_or((0, 1));
+                        props::c14::run_shard(&tier, i, n)
+                    }
+                    "C13" => {
+                        let (i, n) = shard.unwrap_or((0, 1));
+                        props::c13::run_shard(&tier, i, n)
+                    }
                     _ => {
                         out!("MACHINERY-ERROR: no worker mode for {}", prop);
                         return 2;
@@ -142,6 +156,8 @@ fn real_main(mut args: Vec<String>) -> i32 {
                 "C07" => props::c07::run(&tier, seed),
                 "C09" => props::c09::run(&tier, seed),
                 "C10" => props::c10::run(&tier, seed),
+                "C14" => props::c14::run(&tier, seed),
+                "C13" => props::c13::run(&tier, seed),
                 _ => {
                     out!("MACHINERY-ERROR: unknown property {}", prop);
                     return 2;
@@ -185,6 +201,8 @@ fn replay(path: &str, worker: bool) -> i32 {
             "c07-stop" => props::c07::replay(r),
             "c09-root" => props::c09::replay(r),
             "c10-root" => props::c10::replay(r),
+            "e5-schedule" => props::c14::replay(r, &props::c14::oracle),
+            "c13-case" => props::c13::replay(r),
             _ => Err(format!("unknown replay kind {:?}", kind)),
         }
     };
